@@ -407,4 +407,4 @@ def check(ctx):
     r8_every_valid_guard_is_checked_for_overlap(ctx)
 
 
-CLAUSE += '; the domain guard is handed from Blueprint::domain to the schema as given'
+CLAUSE += ' Also: the domain guard is handed from Blueprint::domain to the schema as given.'
